@@ -171,8 +171,9 @@ def model(cfg, ctx, group, args):
             exp['MulAdd'] = exp['MulAddAssign'] = PANIC if dbg else cfg.wrap(p + c)
             cls.add('MulAdd: product overflows')
         if b == 0:
+            # the trait contracts (and the property) say nothing about a zero divisor; the primitives panic, bnum does too today
             for k in ('Integer::div_floor', 'Integer::mod_floor', 'Integer::div_rem', 'Integer::div_mod_floor', 'Integer::is_multiple_of', 'Integer::divides'):
-                exp[k] = PANIC
+                exp[k] = ANY
             # num_integer documents is_multiple_of(0) as "self == 0" for primitives since 0.1.46; the property does not mention it
             exp['Integer::is_multiple_of'] = ANY
             exp['Integer::divides'] = ANY
@@ -224,18 +225,18 @@ def model(cfg, ctx, group, args):
         x, n = args
         d = '@d%d' % cfg.dbits
         if x < 0:
-            exp['Roots::sqrt'] = PANIC
+            exp['Roots::sqrt'] = ANY      # no real root: outside the property (bnum and the primitives panic)
             exp['Roots::cbrt'] = -iroot(-x, 3)
             cls.add('root of a negative value')
         else:
             exp['Roots::sqrt'] = iroot(x, 2)
             exp['Roots::cbrt'] = iroot(x, 3)
         if n == 0:
-            exp['Roots::nth_root'] = PANIC
-            cls.add('zeroth root (panics)')
+            exp['Roots::nth_root'] = ANY  # the property quantifies over n >= 1
+            cls.add('plain:zeroth root (not judged)')
         elif x < 0 and n % 2 == 0 and n != 1:
-            exp['Roots::nth_root'] = PANIC
-            cls.add('even root of a negative value (panics)')
+            exp['Roots::nth_root'] = ANY  # no real root
+            cls.add('plain:even root of a negative value (not judged)')
         else:
             r = iroot(abs(x), n)
             exp['Roots::nth_root'] = -r if x < 0 else r
@@ -308,7 +309,7 @@ def model(cfg, ctx, group, args):
 
 REQUIRED = ['floor differs from truncation (signs differ, remainder non-zero)', 'both negative, remainder non-zero', 'zero divisor',
             'gcd/lcm with zero', 'gcd > 1, lcm representable', 'lcm not representable', 'Signed::abs of MIN', 'MulAdd: product overflows',
-            'root of a negative value', 'zeroth root (panics)', 'even root of a negative value (panics)', 'argument is a perfect power',
+            'root of a negative value', 'argument is a perfect power',
             'argument is one below a perfect power', 'degree exceeds the bit length (root is 1)', 'negative value: signed_shr vs unsigned_shr differ',
             'unsigned value with top bit set: signed_shr sign-fills', 'Num::from_str_radix'] + \
     ['%s@d%d' % (c, d) for d in (8, 16, 32, 64) for c in ('Newton path (argument >= 2^128)', 'Newton path, degree >= 4',
